@@ -262,3 +262,15 @@ def _write_evidence(prop, ctx, tier, seed, t0, error=None, level="other", violat
     }
     with open(path, "w") as f:
         json.dump(ev, f, indent=1, default=str)
+
+
+def attach_to_evidence(prop, key, value):
+    path = os.path.join(EVIDENCE_DIR, f"{prop}.json")
+    try:
+        with open(path) as f:
+            ev = json.load(f)
+        ev["coverage"][key] = value
+        with open(path, "w") as f:
+            json.dump(ev, f, indent=1, default=str)
+    except Exception as ex:  # evidence stays as written by the check
+        print(f"note: could not attach {key} to evidence: {ex}")
